@@ -45,9 +45,13 @@ def run(chk, tier):
         kinds = {}
         for conds, leaf in loops.paths(got):
             is31 = None
-            for c in conds:
-                if len(c) == 2 and c[0][0] == "bin" and c[0][1] == "Eq" and any("discriminant_value" in repr(x) for x in c[0][2:4]):
-                    is31 = c[1] if any("RDADigitalRadarDataGenericFormat" in repr(x) for x in c[0][2:4]) else None
+            code31 = {v["name"]: int(v["discr"]) for v in prog.adts[MT]["variants"] if not v["fields"]}.get("RDADigitalRadarDataGenericFormat") if MT in prog.adts else None
+            if conds and len(conds[0]) == 3 and conds[0][0] == ("discr", mt) and code31 is not None:
+                rs = conds[0][2]
+                if rs == ((code31, code31),):
+                    is31 = True
+                elif not any(lo <= code31 <= hi for lo, hi in rs):
+                    is31 = False
             if is31 is None:
                 chk.ob("R-TABLE", DC, False, "a path does not start with the test for message type 31", fn.where(), key="t31-test")
                 continue
@@ -58,7 +62,7 @@ def run(chk, tier):
                 chk.ob("R-ORDER", DC, okk and not any(c[0] == ("discr", rd) for c in conds if len(c) == 3), "type 31 is decoded from the stream itself, without a fixed frame read", fn.where(), key="t31#%d" % n["t31"])
                 continue
             n["frame"] += 1
-            first_disc = [c for c in conds if len(c) == 3]
+            first_disc = [c for c in conds[1:] if len(c) == 3]
             okk = bool(first_disc) and first_disc[0][0] == ("discr", rd)
             chk.ob("R-ORDER", DC, okk, "for every other type the %d-byte frame body is read before anything else" % (FRAME - 28), fn.where(), key="frame-first#%d" % n["frame"])
             if not okk:
@@ -67,6 +71,8 @@ def run(chk, tier):
                 chk.ob("R-ERR", DC, leaf[0] == "adt" and leaf[2] == "Err", "a short frame is an error", fn.where(), key="short-frame")
                 continue
             sel = [c for c in first_disc[1:] if c[0] == ("discr", mt)]
+            if not sel and conds[0][0] == ("discr", mt):
+                sel = [conds[0]]
             code = sel[0][2] if sel else None
             dec = [c[0][1] for c in first_disc[1:] if c[0][0] == "discr" and c[0][1][0] == "call"]
             if leaf[0] == "adt" and leaf[2] == "Ok":
